@@ -3,3 +3,9 @@ CHECKS["C15"] = (
     "complete sweep of the finite domains (64 codons, 3x4096 IUPAC triplet spellings, all alphabet letters/pairs, frames x shifts, strand pairs/triples, biotype names) on every run; exhaustive for the stated domains",
     "DESIGN.md 5/C15",
 )
+
+CHECKS["C16"] = (
+    "runtime monitoring: reference-model monitor (transcription of kent binRange.c) on every bins() call of the workload, stored-bin invariant on constructed interval objects, end-to-end strict range queries across bin boundaries",
+    "exhaustive for (start,end) pairs in bands around every multiple k*2^j (j=17..29) in both coordinate conventions and for (interval, query) pairs on a thinner grid; random pairs up to 2^30; one recorded finding (K6)",
+    "DESIGN.md 5/C16",
+)
